@@ -4,8 +4,10 @@ Import ListNotations.
 Require Import Base Float Strings Builtins.
 Open Scope Z_scope.
 
+Lemma sum_any_ints : forall l s, sum_any (NI s) (map NI l) = Some (NI (fold_left Z.add l s)).
+Proof. induction l as [|x l IH]; intros s; cbn [map sum_any add_num fold_left]; auto. Qed.
 Lemma py_sum_ints : forall l s, py_sum s (map NI l) = Some (NI (fold_left Z.add l s)).
-Proof. induction l as [|x l IH]; intros s; cbn [map py_sum fold_left]; auto. Qed.
+Proof. induction l as [|x l IH]; intros s; cbn [map py_sum fold_left]; auto. destruct (fits_long x && fits_long (s + x)); [apply IH|apply sum_any_ints]. Qed.
 Lemma py_prod_ints : forall l a, py_prod (NI a) (map NI l) = Some (NI (fold_left Z.mul l a)).
 Proof. induction l as [|x l IH]; intros a; cbn [map py_prod mul_num fold_left]; auto. Qed.
 Lemma nums_of_ints l : nums_of (map VInt l) = map NI l.
